@@ -19,4 +19,8 @@ OBLIGATIONS = [
      "incdirs": INC, "defines": ['RXV_CONTRACTS_H="decls_set_cache.h"'], "entry": "h_set_cache",
      "expect_classes": ["assertion"], "expect_min": 3,
      "replay": {"prog": "replay_set_cache.cpp", "sources": "lib", "flags": ["-O1"], "vars": ["zzz"], "always": True}},
+    {"name": "init_cache_rekeys_unless_same_key", "files": [{"cxx": XS.RX_INIT_CACHE, "out": "rx.c", "header": True}, "harness_init_cache.c"],
+     "incdirs": INC, "defines": ['RXV_CONTRACTS_H="decls_set_cache.h"'], "entry": "h_init_cache",
+     "expect_classes": ["assertion"], "expect_min": 3,
+     "replay": {"prog": "replay_init_cache.cpp", "sources": "lib", "flags": ["-O1"], "no_args": True}},
 ]
